@@ -702,9 +702,9 @@ class Molecule(nx.Graph):
                 .format(self.nrexcl, molecule.nrexcl)
             )
         if self.nodes():
-            if not self.max_node:
-                # hopefully it is a small graph when this is called.
-                self.max_node = max(self)
+            # The cached value goes stale when nodes are added in bulk or
+            # through edges, or when nodes are removed; always recompute it.
+            self.max_node = max(self)
 
             # We assume that the last id is always the largest.
             last_node_idx = self.max_node
